@@ -75,7 +75,7 @@ func TestC14(t *testing.T) {
 			"another existing - staked or unstaking - application). Oracle: full dump of "+
 			"all substores before/after: noauth => identical and code != 0; selfpay => only the attacker's account and the fee collector change, by exactly the fee, code != 0. "+
 			"non-trivial = the attacking key is a funded account that legitimately signs for some other object",
-		map[string]float64{"noauth": 0.9, "selfpay": 0.8, "attacker-is-other-operator": 0.5, "multisig-attack": 0.3, "wrong-chain": 0.3, "app-transfer-onto-existing-application": 0.2, "app-transfer-onto-unstaking-application": 0.03, "app-owner-edits-another-application": 0.2, "output-key-edits-delegators": 0.1},
+		map[string]float64{"noauth": 0.9, "selfpay": 0.8, "attacker-is-other-operator": 0.5, "multisig-attack": 0.18, "wrong-chain": 0.3, "app-transfer-onto-existing-application": 0.2, "app-transfer-onto-unstaking-application": 0.03, "app-owner-edits-another-application": 0.2, "output-key-edits-delegators": 0.1},
 		func(rt *rapid.T, c *harness.Case) {
 			w := chain.GenWorld(rt)
 			c.Opf("%s", w.Describe())
